@@ -851,9 +851,14 @@ class CeiloChunk(AbstractChunk):
             valids = tmp['height'].notna() * valids
 
             # Run the clustering
-            nlabels, labels = cluster.clusterize(
-                tmp[['dt', 'height']][valids].to_numpy(), algo='agglomerative',
-                **{'linkage': 'single', 'metric': 'euclidean', 'distance_threshold': 1})
+            if valids.sum() == 1:
+                # A bundle can consist of a single hit: it is its own cluster, and the
+                # clustering routine cannot handle fewer than 2 points.
+                nlabels, labels = 1, np.zeros(1, dtype=int)
+            else:
+                nlabels, labels = cluster.clusterize(
+                    tmp[['dt', 'height']][valids].to_numpy(), algo='agglomerative',
+                    **{'linkage': 'single', 'metric': 'euclidean', 'distance_threshold': 1})
 
             # Based on the clustering, assign each element to a group. The group id is the slice_id
             # to which the majority of the identified (clustered) hits belong.
